@@ -24,6 +24,7 @@ UNITS = [
     "src/geocel/BoundingBoxIO.json.cc",
     "src/orange/surf/SurfaceIO.cc",
     "src/orange/transform/TransformIO.cc",
+    "src/corecel/io/Label.cc",
 ]
 
 JSON = "nlohmann::basic_json::"
@@ -230,6 +231,37 @@ def run(db, cx):
                   why="if the default differs from the omission value, every object with the common "
                       "value comes back changed")
     cx.floor("`field != default` omissions", n3, 3)
+
+    # --- R1b: paired export_*/import_* helpers (zipped surfaces ...) agree on their keys
+    nh = 0
+    for n_exp in db.find(r"^celeritas::detail::export_[a-z_]+$"):
+        suffix = n_exp.split("export_")[-1]
+        n_imp = n_exp.replace("export_", "import_")
+        if not db.get(n_imp):
+            continue
+        fe, fi = db.get(n_exp)[0], db.get(n_imp)[0]
+        wk = set(k for (k, how, _c, _p, _e) in key_events(fe) if how in ("index", "pair"))
+        rkk = set(k for (k, how, _c, _p, _e) in key_events(fi))
+        if not wk and not rkk:
+            continue
+        nh += 1
+        cx.ob("C19.1-keys", "helper pair export_%s/import_%s agree on keys" % (suffix, suffix),
+              wk == rkk and bool(wk), "written %s, read %s" % (sorted(wk), sorted(rkk)), short(fe.loc),
+              why="the zipped surface arrays are matched by key name")
+    cx.floor("export/import helper pairs with keys", nh, 1)
+    # label <-> string uses one separator on both sides
+    pr = [f for f in db.get(C + "operator<<") if f.r["params"] and len(f.r["params"]) == 2
+          and "celeritas::Label" in f.r["params"][1]["cty"]]
+    fj = [f for f in db.get(C + "from_json") if f.r["params"] and "celeritas::Label" in f.r["params"][1]["cty"]]
+    if pr and fj:
+        uses = any("g:" + C + "Label::default_sep" in str(e) or "default_sep" in e.get("t", "")
+                   for (_b, _i, e0) in pr[0].events("call") for e in e0.get("args", []))
+        one_arg = any(e["callee"] == C + "Label::from_separator" and len(e.get("args", [])) == 1
+                      for (_b, _i, e) in fj[0].events("call"))
+        cx.ob("C19.4-tables", "Label printer and parser use the same (default) separator",
+              uses and one_arg, "operator<< streams Label::default_sep: %s; from_json calls "
+              "from_separator(str) with the default: %s" % (uses, one_arg), short(pr[0].loc),
+              why="a label written with one separator and split at another loses its extension")
 
     # --- R4 tables: ZOrder char <-> enum
     en = db.enums.get(C + "ZOrder")
